@@ -137,6 +137,11 @@ PROOFS.append(Proof('space_text_apply', impl='contracts/C19/sptext.impl.cpp', sp
                              ('words_not_forced', r'(back-to-back words need a space.*?\n.*?\n\s*)pc->SetFlagBits\(PCF_FORCE_SPACE\);', r'\1;', 'postcondition'),
                              ('comment_opener_only_for_star', r"&& \(  next->GetStr\(\)\[0\] == '\*'\n\s*\|\| next->GetStr\(\)\[0\] == '/'\)\)", "&& (  next->GetStr()[0] == '*'))", 'postcondition'),
                              ('force_adds_two', r'column \+= min_sp;  // add exactly the specified number of spaces', 'column += min_sp + 1;', 'postcondition')]))
+PROOFS.append(Proof('split_lambda_square', impl='contracts/C19/lambda.impl.cpp', spec='contracts/C19/lambda.spec.c', harness='h_split_lambda_square', plain=True, no_contract=True, canaries=2, rules={},
+                    expect=['postcondition: lambda'], drop_flags=['--conversion-check'], functions=['combine.cpp:handle_cpp_lambda (fragment: re-split of the one-chunk [])'],
+                    assumed=['UncText::resize / pop_front: the texts become "[" and "]" (not tracked)', 'CopyAndAddAfter: copies the scalar attributes'],
+                    mutants=[('close_column_as_if_adjacent', r'nc\.SetOrigCol\(sq_o->GetOrigColEnd\(\) - 1\);', 'nc.SetOrigCol(sq_o->GetOrigCol() + 1);', 'postcondition'),
+                             ('open_end_not_updated', r'sq_o->SetOrigColEnd\(sq_o->GetOrigCol\(\) \+ 1\);', '', 'postcondition')]))
 import replay_lib  # noqa: E402
 sys.path.insert(0, os.path.join(os.path.dirname(os.path.abspath(__file__)), '..', 'shared'))
 import outtext_proofs  # noqa: E402
@@ -174,7 +179,7 @@ EXPLANATION = ('Kernel of C19. do_space() - the real 3400-line decision function
                'ensure_force_space / space_needed / space_col_align turn the decision into a number of columns exactly as the property says (Remove none, Force one '
                '(max(1,min_sp)), Add at least one, Ignore as in the input; a forced space overrides Remove). The one spacing option applied outside space.cpp, '
                'sp_before_nl_cont, is checked where it is applied: in one iteration of output_text().')
-K = ['K1 do_space: rule logged <-> option value returned, for all 400+ IARF options at once; result always one of the four values; min_sp assigned',
+K = ['K5 handle_cpp_lambda (re-split of the one-chunk []): the two brackets get the original columns they had in the input, so that Ignore keeps the blanks inside `[ ]`', 'K1 do_space: rule logged <-> option value returned, for all 400+ IARF options at once; result always one of the four values; min_sp assigned',
      'K2 ensure_force_space, do_space_ensured, space_needed, space_col_align: meaning of the four values in columns',
      'K3 space_text (core of one iteration): the decision is applied to the column of the following chunk exactly as the property says (Force: exactly max(1,min_sp) blanks; Remove: none; Add: at least max(1,min_sp); Ignore: the gap of the input)',
      'K4 output_text (one iteration): the column of a backslash-newline obeys sp_before_nl_cont (Remove: none, Force: exactly one, Add: at least one, Ignore: the original spacing)']
